@@ -4,7 +4,7 @@ EXTENDS MC_EvalBase
 
 \* ---- C03: totality and misuse
 Vals3 == { N(1), ND(FALSE, <<1,5>>, -1), <<"Pre", "-", N(1)>>, N(0), S(<<97,98>>), S(<<>>), KwL("true"), KwL("null"), Id("np"), Id("m"), Id("sl"), Id("ss"),
-           Id("st"), Id("t"), Id("rec"), Id("u"), Id("nan"), ND(FALSE, <<1>>, 6), <<"Arr", <<>>>> }
+           Id("st"), Id("t"), Id("rec"), Id("u"), Id("nan"), ND(FALSE, <<1>>, 6), <<"Arr", <<>>>>, Id("nb") }
 Vals3s == { N(1), <<"Pre", "-", N(1)>>, S(<<97,98>>), S(<<40>>), KwL("null"), Id("sl"), Id("ss"), Id("t"), N(5), ND(FALSE, <<1>>, 6) }
 Funs3 == BuiltinNames \ {"now", "toDay"}
 AllBinOps == BinOps \cup {","}
@@ -40,4 +40,7 @@ GroupProgramsC03(g) ==
          \cup { <<"Call", P(Id("rec")), <<N(1)>>, FALSE>>, <<"Call", <<"Call", Id("rec"), <<Id("rec")>>, FALSE>>, <<N(1)>>, FALSE>>,
                 <<"Call", N(1), <<>>, FALSE>>, <<"Call", KwL("null"), <<>>, FALSE>>, <<"Call", KwL("this"), <<>>, FALSE>> }
          \cup { <<"Bin", "=", a, N(1)>> : a \in Vals3 }
+         \* a value of every kind as the *final* value of the evaluation (the conversion handed back to the caller), bare and selected
+         \cup { e : e \in Vals3x } \cup { P(e) : e \in Vals3x } \cup { <<"Cond", c, e, N(0)>> : c \in {Id("b"), N(0)}, e \in Vals3x }
+         \cup { <<"Bin", op, N(0), e>> : op \in {"||", "??", ","}, e \in Vals3x } \cup { <<"Bin", "&&", N(1), e>> : e \in Vals3x }
 =============================================================================
